@@ -18,6 +18,7 @@ CONSTANTS
     HonourAllowInvalid = TRUE
     RenameBeforeCommit = TRUE
     CleanupScansTemps = TRUE
+    RestoreMkdirOnlyIfParentMissing = FALSE
 SPECIFICATION TraceSpec
 CONSTRAINT HighWater
 POSTCONDITION TraceAccepted
